@@ -177,7 +177,16 @@ class Verifier:
             s.add(a)
         for c in pc:
             s.add(c)
-        r = s.check()
+        import threading
+        wd = threading.Timer(6.0, z3.main_ctx().interrupt)      # z3's own timeout is not honoured in every phase
+        wd.daemon = True
+        wd.start()
+        try:
+            r = s.check()
+        except z3.Z3Exception:
+            r = z3.unknown
+        finally:
+            wd.cancel()
         res = r != z3.unsat
         self._feas_cache[key] = res
         return res
